@@ -2,17 +2,22 @@ package checks
 
 import (
 	"bytes"
+	"context"
 	"encoding/hex"
 	"fmt"
 	"math/big"
 	"runtime"
 	"sync"
+	"sync/atomic"
 	"syscall"
 	"time"
 	"unsafe"
 
 	"github.com/indexsupply/shovel/dig"
 	"github.com/indexsupply/shovel/eth"
+	"github.com/indexsupply/shovel/shovel"
+	"github.com/indexsupply/shovel/shovel/config"
+	"github.com/indexsupply/shovel/wpg"
 
 	"verif/harness/gen"
 	"verif/harness/refmodel"
@@ -69,7 +74,7 @@ func init() {
 		Exhaustive:       func(string) bool { return false },
 		MinObs: func(tier string) map[string]int64 {
 			m := map[string]int64{
-				"calls": 100000, "calls_random": 10000, "calls_truncation": 15000, "calls_wordvalue": 40000, "calls_alias": 3000, "insert_calls": 2000,
+				"calls": 100000, "calls_random": 10000, "calls_truncation": 15000, "calls_wordvalue": 40000, "calls_alias": 3000, "insert_calls": 2000, "wired_two_task_runs": 20,
 				"calls_exact_cap": 40000, "calls_canary": 40000, "returned_ok": 10000, "returned_error": 30000, "cells_range_checked": 30000,
 			}
 			if tier == "thorough" {
@@ -438,6 +443,9 @@ func c10Run(c *vk.Case) {
 			c.Obs("calls_alias", int64(used()-before))
 		case 4:
 			c10Insert(c, x, valid)
+			if r.Chance(1, 2) {
+				c10Wired(c, x)
+			}
 			// keep the direct monitors busy in this family too
 			x.present(valid(), "valid")
 		}
@@ -592,5 +600,118 @@ func c10Insert(c *vk.Case, x *c10Ctx, valid func() []byte) {
 			c.Obs("insert_returned_rows", 1)
 		}
 		c.SetSig("insert:%s:%s", what, outcome)
+	}
+}
+
+// c10Wired: two destinations built by shovel.NewDestination from one
+// integration configuration (the tasks of two sources) insert at the same time:
+// one hostile data, the other well-formed logs. The well-formed task must copy
+// exactly the values of the bytes it supplied, and neither may panic.
+func c10Wired(c *vk.Case, x *c10Ctx) {
+	r := c.R
+	d := x.d
+	if len(d.leaves) == 0 {
+		return
+	}
+	tbl := wpg.Table{Name: "t_wired"}
+	var walk func(fs []refmodel.Field)
+	walk = func(fs []refmodel.Field) {
+		for _, f := range fs {
+			b := f.Type.Base()
+			if b.Kind == refmodel.KTuple {
+				walk(b.Fields)
+				continue
+			}
+			if f.Column != "" {
+				tbl.Columns = append(tbl.Columns, wpg.Column{Name: f.Column, Type: pgTypeOf(b)})
+			}
+		}
+	}
+	walk(d.fields)
+	cfg := config.Integration{Name: "ig_abi", Enabled: true, Table: tbl, Event: d.ev}
+	good, err1 := shovel.NewDestination(cfg)
+	bad, err2 := shovel.NewDestination(cfg)
+	if err1 != nil || err2 != nil {
+		c.Violate("wired:NewDestination-failed", map[string]any{"declaration": d.describe(), "err": fmt.Sprint(err1, err2)}, "shovel.NewDestination failed for %s", d.describe())
+		return
+	}
+	var sets [][]any
+	for i := 0; i < 3; i++ {
+		sets = append(sets, gen.Values(r, d.fields, gen.ABIOpts{DynLen: 2, MinDynLen: r.Intn(2)}))
+	}
+	goodBlocks, want := c09Blocks(r, d, sets, 500)
+	if goodBlocks == nil {
+		return
+	}
+	// hostile logs for the other task
+	var hostile [][]eth.Block
+	for i := 0; i < 20; i++ {
+		var data []byte
+		enc := refmodel.EncodeTuple(d.fields, gen.Values(r, d.fields, gen.ABIOpts{DynLen: 2, MinDynLen: r.Intn(2)}))
+		switch r.Intn(3) {
+		case 0:
+			data = c10RandomBytes(r)
+		case 1:
+			data = enc[:r.Intn(len(enc)+1)]
+		default:
+			if len(enc) >= 32 {
+				bw := c10BoundaryWords(len(enc))
+				copy(enc[32*r.Intn(len(enc)/32):], bw[r.Intn(len(bw))])
+			}
+			data = enc
+		}
+		bs, _ := c09Blocks(r, d, sets[:1], uint64(600+i))
+		bs[0].Txs[0].Logs[0].Data = eth.Bytes(exactCopy(data))
+		hostile = append(hostile, bs)
+	}
+	const iters = 40
+	var (
+		wg       sync.WaitGroup
+		diff     string
+		pans     [2]*panicInfo
+		stopFlag int32
+	)
+	wg.Add(2)
+	go func() {
+		defer wg.Done()
+		defer atomic.StoreInt32(&stopFlag, 1)
+		defer func() {
+			if r := recover(); r != nil {
+				pans[0] = capturePanic(r)
+			}
+		}()
+		for k := 0; k < iters && diff == ""; k++ {
+			rc := &recConn{}
+			if _, err := good.Insert(context.Background(), &sync.Mutex{}, rc, goodBlocks); err != nil {
+				diff = "Insert of well-formed logs failed: " + err.Error()
+				return
+			}
+			diff = c09RowsDiffer(d, rc.rows, want)
+		}
+	}()
+	go func() {
+		defer wg.Done()
+		defer func() {
+			if r := recover(); r != nil {
+				pans[1] = capturePanic(r)
+			}
+		}()
+		for k := 0; atomic.LoadInt32(&stopFlag) == 0 && k < 100000; k++ {
+			bad.Insert(context.Background(), &sync.Mutex{}, &recConn{}, hostile[k%len(hostile)])
+		}
+	}()
+	wg.Wait()
+	c.Obs("wired_two_task_runs", 1)
+	det := map[string]any{"declaration": d.describe()}
+	for i, pn := range pans {
+		if pn != nil {
+			det["panic"], det["task"] = pn, []string{"well-formed", "hostile"}[i]
+			c.Violate(pn.key()+":wired-two-tasks", det, "Insert panicked while two tasks of integration %s inserted at the same time (%s data): %s", d.describe(), det["task"], pn.Val)
+			return
+		}
+	}
+	if diff != "" {
+		det["difference"] = diff
+		c.Violate("wired:values-not-from-own-input", det, "two destinations from shovel.NewDestination for %s inserted at the same time; the task with well-formed logs: %s", d.describe(), diff)
 	}
 }
